@@ -75,4 +75,51 @@ theorem conn_snoc_iff (ha : Valid n a) (hb : Valid n b) :
     · exact h1.snoc.trans ((Conn.pair (List.mem_append_right _ (List.mem_singleton.2 rfl)) ha hb).trans h2.snoc)
     · exact h1.snoc.trans ((Conn.pair (List.mem_append_right _ (List.mem_singleton.2 rfl)) ha hb).symm.trans h2.snoc)
 
+/-- `Union(a, b)` and `Union(b, a)` extend the closure in the same way -/
+theorem conn_snoc_swap : Conn n (us ++ [(b, a)]) p q ↔ Conn n (us ++ [(a, b)]) p q := by
+  by_cases h : Valid n a ∧ Valid n b
+  · rw [conn_snoc_iff h.1 h.2, conn_snoc_iff h.2 h.1]
+    constructor <;> (rintro (k | k | k); exact .inl k; exact .inr (.inr k); exact .inr (.inl k))
+  · rw [conn_snoc_invalid h, conn_snoc_invalid (fun k => h ⟨k.2, k.1⟩)]
+
+/-- pigeonhole: a duplicate-free list that is related injectively into another list is no longer -/
+theorem length_le_of_injective_rel {α β : Type} [DecidableEq β] (R : α → β → Prop) :
+    ∀ (l : List α) (l' : List β), l.Nodup → (∀ a ∈ l, ∃ b ∈ l', R a b) →
+      (∀ a ∈ l, ∀ a' ∈ l, ∀ b, R a b → R a' b → a = a') → l.length ≤ l'.length := by
+  intro l
+  induction l with
+  | nil => intro l' _ _ _; simp
+  | cons a t ih =>
+    intro l' hnd hex hinj
+    obtain ⟨hat, hndt⟩ := List.nodup_cons.1 hnd
+    obtain ⟨b, hb, hab⟩ := hex a (List.mem_cons_self ..)
+    have := ih (l'.erase b) hndt
+      (fun a' ha' => by
+        obtain ⟨b', hb', hab'⟩ := hex a' (List.mem_cons_of_mem _ ha')
+        have hne : b' ≠ b := by
+          intro h
+          subst h
+          have := hinj a (List.mem_cons_self ..) a' (List.mem_cons_of_mem _ ha') b' hab hab'
+          exact hat (this ▸ ha')
+        exact ⟨b', (List.mem_erase_of_ne hne).2 hb', hab'⟩)
+      (fun x hx y hy => hinj x (List.mem_cons_of_mem _ hx) y (List.mem_cons_of_mem _ hy))
+    rw [List.length_erase_of_mem hb] at this
+    have : 0 < l'.length := List.length_pos_of_mem hb
+    simp only [List.length_cons]
+    omega
+
+theorem IsClassCount.le {k k' : Nat} (h : IsClassCount n us k) (h' : IsClassCount n us k') : k ≤ k' := by
+  obtain ⟨reps, hl, hnd, hlt, _, hsep⟩ := h
+  obtain ⟨reps', hl', _, _, hcov', _⟩ := h'
+  rw [← hl, ← hl']
+  refine length_le_of_injective_rel (fun (r r' : Nat) => Conn n us (r : Int) (r' : Int)) reps reps' hnd ?_ ?_
+  · intro r hr
+    exact hcov' r ⟨by omega, by have := hlt r hr; omega⟩
+  · intro r hr s hs b h1 h2
+    exact hsep r hr s hs (h1.trans h2.symm)
+
+/-- the number of classes is determined -/
+theorem IsClassCount.unique {k k' : Nat} (h : IsClassCount n us k) (h' : IsClassCount n us k') : k = k' :=
+  Nat.le_antisymm (h.le h') (h'.le h)
+
 end AlgoVerif.C17.Spec
